@@ -17,7 +17,7 @@ def run(rep, tier):
                 X.GraphQLClientGraphQLMultiError.from_errors_dicts, X.GraphQLClientGraphQLError.from_dict, ClientGenerator.add_method)
     t = 120 if tier == "quick" else 600
     targets = [f"{MOD1}.{f}" for f in ("check_base", "check_async", "check_base_otel", "check_async_otel", "twin_multi_reached")]
-    targets += [f"{MOD2}.{f}" for f in ("check_sync", "check_async", "check_sync_clash", "check_async_clash", "twin_ok_reached")]
+    targets += [f"{MOD2}.{f}" for f in ("check_sync", "check_async", "check_sync_clash", "check_async_clash", "check_real_transport_status", "twin_ok_reached")]
     res = xh.run_targets(targets, timeout=t)
     xh.fold(rep, MOD1, [r for r in res if r.target.startswith(MOD1)])
     xh.fold(rep, MOD2, [r for r in res if r.target.startswith(MOD2)])
